@@ -79,7 +79,11 @@ void EpollLoop::runLoop(Mode mode)
 
         for (int i = 0; i < fds; ++i) {
             epoll_event &ev = events.at(i);
-            EpollFdEvent::OnEventCallback(ev.events, ev.data.ptr);
+            //! 本轮前面的回调可能已经释放了该fd的共享数据（甚至其内存块已被别的fd复用），
+            //! 所以epoll_event中只存fd，每次都重新查表，查不到就说明已没有事件关心它了
+            auto iter = fd_data_map_.find(ev.data.fd);
+            if (iter != fd_data_map_.end())
+                EpollFdEvent::OnEventCallback(ev.events, iter->second);
         }
 
         //handleRunInLoopFunc();
@@ -114,7 +118,7 @@ EpollFdSharedData* EpollLoop::refFdSharedData(int fd)
 
         ::memset(&fd_shared_data->ev, 0, sizeof(fd_shared_data->ev));
         fd_shared_data->fd = fd;
-        fd_shared_data->ev.data.ptr = static_cast<void *>(fd_shared_data);
+        fd_shared_data->ev.data.fd = fd;
 
         fd_data_map_.insert(std::make_pair(fd, fd_shared_data));
     }
